@@ -132,6 +132,14 @@ class Seq:
             # ---- model
             ok = False
             cands = []
+            # the plan id hashes the second in which the PLAN was made (scanner.rs generate_plan_id); the history entry's created_at is
+            # taken later and, on a loaded machine, may already be the next second: the stored plan copy carries the plan's own second
+            if new and c[0] == "rename":
+                try:
+                    pj = json.loads(sb.read(".renamify/plans/" + new[0]["id"] + ".json").decode("utf-8"))
+                    cands.append(int(pj["created_at"]))
+                except Exception:
+                    pass
             if new and new[0].get("created_at"):
                 try:
                     import datetime
@@ -142,6 +150,11 @@ class Seq:
             for x in (t0, t1):
                 if x not in cands:
                     cands.append(x)
+            if rc != 0 and c[0] == "rename":
+                # a refused rename collided with an id made in some earlier second: that second is among those already fed to the model
+                for prev in self.cmds:
+                    if isinstance(prev, list) and len(prev) == 2 and isinstance(prev[1], int) and prev[1] not in [x % 100000 for x in cands]:
+                        cands.append(prev[1])
             for sec in cands:
                 trial = self.cmds + [[mc, sec % 100000]]
                 res = self.M.ask("hist_run", trial)
